@@ -24,6 +24,9 @@ def NDTInv (dt : NaiveDT) : Prop := DateInv dt.date ∧ TValid dt.time
 /-- not a leap-second representation -/
 def NonLeap (dt : NaiveDT) : Prop := dt.time.frac < 1000000000
 
+instance (dt : NaiveDT) : Decidable (NDTInv dt) := by unfold NDTInv; exact inferInstance
+instance (dt : NaiveDT) : Decidable (NonLeap dt) := by unfold NonLeap; exact inferInstance
+
 /-- the instants of `NaiveDateTime::MIN` and `MAX` -/
 def NS_MIN : Int := instNs NaiveDT.MIN
 def NS_MAX_DT : Int := instNs NaiveDT.MAX
